@@ -1,22 +1,24 @@
 #!/bin/bash
-# tools/confirm_seed.sh <PROP> <a|b> : confirm a seeded change in its scratch worktree, then store it under /verif/seeded/
-# (patch applies; suite still 294 passed; demo fails with the change and passes without)
+# tools/confirm_seed.sh <PROP> <variant> [WTROOT] [SEEDROOT]: confirm a seeded change in its scratch worktree, then store it
+# under /verif/seeded/ (patch applies; suite still 294 passed; demo fails with the change and passes without)
 P=$1; V=$2
-WT=/tmp/wt/$P; SD=/tmp/seed/$P
+WT=${3:-/tmp/wt2}/$P; SD=${4:-/tmp/seed2}/$P
 set -u
 git -C $WT checkout -q -- . || exit 2
 git -C $WT apply $SD/$V.diff || { echo "APPLY FAILED"; exit 2; }
-( cd $WT && /venv/bin/python -m pytest -q -p no:cacheprovider --timeout=900 --continue-on-collection-errors 2>&1 | tail -1 ) > /tmp/seed/$P/$V.suite.txt
-SUITE=$(cat /tmp/seed/$P/$V.suite.txt)
-( cd $WT && PYTHONPATH=$WT /venv/bin/python $SD/${V}_demo.py >/tmp/seed/$P/$V.with.txt 2>&1 ); WITH=$?
+( cd $WT && /venv/bin/python -m pytest -q -p no:cacheprovider --timeout=900 --continue-on-collection-errors 2>&1 | tail -1 ) > $SD/$V.suite.txt
+SUITE=$(cat $SD/$V.suite.txt)
+( cd $WT && PYTHONPATH=$WT timeout 300 /venv/bin/python $SD/${V}_demo.py >$SD/$V.with.txt 2>&1 ); WITH=$?
 git -C $WT checkout -q -- .
-( cd $WT && PYTHONPATH=$WT /venv/bin/python $SD/${V}_demo.py >/tmp/seed/$P/$V.without.txt 2>&1 ); WITHOUT=$?
+( cd $WT && PYTHONPATH=$WT timeout 300 /venv/bin/python $SD/${V}_demo.py >$SD/$V.without.txt 2>&1 ); WITHOUT=$?
+find $WT -name __pycache__ -prune -exec rm -rf {} + 2>/dev/null
 echo "$P/$V suite: $SUITE | demo with change: exit $WITH | without: exit $WITHOUT"
-case "$SUITE" in *"294 passed"*) ;; *) echo "REJECT: suite"; exit 1;; esac
+case "$SUITE" in *"294 passed, 2 skipped"*"10 errors"*) ;; *) echo "REJECT: suite"; exit 1;; esac
 [ $WITH -ne 0 ] && [ $WITHOUT -eq 0 ] || { echo "REJECT: demo"; exit 1; }
 D=/verif/seeded/$P-$V
 mkdir -p $D
 cp $SD/$V.diff $D/patch.diff
 cp $SD/${V}_demo.py $D/demo.py
 echo "$SUITE" > $D/suite.txt
+[ -f $SD/notes.md ] && cp $SD/notes.md $D/author_notes.md
 echo CONFIRMED
